@@ -13,7 +13,9 @@ CLAUSES = {
     "C10.fixed": 20000,      # all loci fixed (integer counts) => usl == lsl == common GEBV
     "C10.lost": 25000,       # integer count 0 stays 0; reported frequency exactly 0/1 stays exactly 0/1
 }
-HOOKS_REQUIRED = ["matings whose named parents are a proper subset of the matrix mated from", "mate calls", "select_taxa calls", "concat_taxa calls", "usl/lsl calls",
+HOOKS_REQUIRED = ["generations with more than 4096 taxa",
+                  "histories on founders never grouped along the variant axis (interleaved chromosomes)",
+                  "matings whose named parents are a proper subset of the matrix mated from", "mate calls", "select_taxa calls", "concat_taxa calls", "usl/lsl calls",
                   "fixed populations with ploidy*n not a power of two",
                   "transitions between ploidy*n a power of two and not a power of two",
                   "generations at a reciprocal-rounding-critical size"]
@@ -28,7 +30,9 @@ RULE = ("seeded closed breeding histories driven through the real classes: found
         "sizes); plus selection-only chains on haploid/diploid/tetraploid phased matrices.  Every generation the limits are "
         "read through four inputs (phased matrix, unphased matrix from the real genotyping protocol, {0,1,2} ndarray, "
         "correctly rounded frequency vector) scaled and unscaled.  Non-trivial: at least one transition and one segregating "
-        "or non-zero-effect locus; distinct = digest of founders, effects and the executed operation list.")
+        "or non-zero-effect locus; 30 % of the founder matrices are never grouped along the variant axis and store their "
+        "chromosomes interleaved with unsorted positions; 3 % of the mating histories (15 % of the chains) contain one "
+        "generation of 4097-8200 taxa; distinct = digest of founders, effects and the executed operation list.")
 ASSUME = ["the genomic breeding value of an individual is intercept + sum_j genotype_j * u_a[j]; the intercept is whatever "
           "gebv(...).unscale() adds (checked to be one constant per trait), and usl/lsl with unscale=True are compared with "
           "those values, usl/lsl with unscale=False with the values without intercept (gebv_numpy)",
@@ -122,17 +126,21 @@ def gen_founder_mat(g, n, m, ploidy, fcls):
     return numpy.ascontiguousarray(mat).astype("int8")
 
 
-def make_pop(g, mat, nchr):
+def make_pop(g, mat, nchr, ungrouped=False):
     from pybrops.popgen.gmat.DensePhasedGenotypeMatrix import DensePhasedGenotypeMatrix
     ploidy, n, m = mat.shape
     chrgrp = GP.chrom_layout(g, m, nchr)
     xo = GP.make_xoprob(g, chrgrp, ["zero", "half", "mixed", "random", "random", "haldane"][int(g.integers(6))])
+    phypos = numpy.arange(1, m + 1, dtype="int64") * 10
+    if ungrouped:   # panel order: chromosomes interleaved, positions unsorted; valid input (mate() only needs vrnt_xoprob)
+        perm = g.permutation(m); chrgrp = chrgrp[perm]; phypos = phypos[g.permutation(m)]
     pg = DensePhasedGenotypeMatrix(
         mat, taxa=numpy.array(["f%03d" % i for i in range(n)], dtype=object), taxa_grp=g.integers(0, 3, n).astype("int64"),
-        vrnt_chrgrp=chrgrp, vrnt_phypos=numpy.arange(1, m + 1, dtype="int64") * 10,
+        vrnt_chrgrp=chrgrp, vrnt_phypos=phypos,
         vrnt_name=numpy.array(["m%03d" % i for i in range(m)], dtype=object), vrnt_genpos=numpy.cumsum(g.uniform(0.001, 0.3, m)),
         vrnt_xoprob=xo)
-    pg.group_vrnt()
+    if not ungrouped:
+        pg.group_vrnt()
     return pg
 
 
@@ -156,23 +164,30 @@ def read_generation(ctx, mon, model, has_unscale, genotyper, pg, t, op, opsite, 
     gref = Zi @ mon.u               # oracle: breeding value without intercept, from the integer genotypes
     u_scale = mon.tol(ploidy, 0.0)
     # library-reported breeding values
-    gsc, gun, offset = gref, None, numpy.zeros(gref.shape[1])
+    # The limits promise to bracket the breeding values the model reports for the individuals, so those are judged as
+    # reported; when they are not genotype @ effects (+ one constant per trait) the monitor is only told so for the key.
+    gsc, gun, offset, gdev = gref, None, numpy.zeros(gref.shape[1]), {}
     try:
         Z = pg.mat_asformat("{0,1,2}")
         lib = numpy.asarray(model.gebv_numpy(Z), dtype=float)
-        if lib.shape == gref.shape and numpy.all(numpy.abs(lib - gref) <= u_scale):
+        if lib.shape == gref.shape and numpy.all(numpy.isfinite(lib)):
             gsc = lib
+            if not numpy.all(numpy.abs(lib - gref) <= u_scale):
+                gdev["sc"] = True; ctx.sumnote("gebv_numpy differs from the integer definition (judged as reported)")
         else:
-            ctx.sumnote("gebv_numpy differs from the integer definition (not judged here; oracle values used)")
+            ctx.sumnote("gebv_numpy unusable (shape / non-finite): oracle values used")
     except Exception as e:
         ctx.raised("gebv_numpy", e); Z = Zi.astype("int8")
     try:
         lib = numpy.asarray(model.gebv(pg).unscale(), dtype=float)
-        c = lib[0] - gref[0]
-        if lib.shape == gref.shape and numpy.all(numpy.isfinite(lib)) and numpy.all(numpy.abs(lib - (gref + c)) <= mon.tol(ploidy, c)):
+        if lib.shape == gref.shape and numpy.all(numpy.isfinite(lib)):
+            d = lib - gref
+            c = numpy.median(d, axis=0)     # the intercept: the constant most individuals agree on
             gun, offset = lib, c
+            if not numpy.all(numpy.abs(d - c) <= mon.tol(ploidy, c)):
+                gdev["un"] = True; ctx.sumnote("gebv().unscale() is not definition + constant (judged as reported)")
         else:
-            ctx.sumnote("gebv().unscale() is not definition + constant (not judged here; unscaled comparisons skipped)")
+            ctx.sumnote("gebv().unscale() unusable (shape / non-finite): unscaled comparisons skipped")
     except Exception as e:
         ctx.raised("gebv().unscale()", e)
     # input forms
@@ -206,11 +221,13 @@ def read_generation(ctx, mon, model, has_unscale, genotyper, pg, t, op, opsite, 
             except Exception as e:
                 ctx.raised("afreq (%s)" % name, e)
     ctx.sumnote("generations fixed at all loci" if numpy.all((count == 0) | (count == ploidy * n)) else "generations with segregating loci")
+    if n > 4096:
+        ctx.hook("generations with more than 4096 taxa")
     if (ploidy * n) in CRITN:
         ctx.hook("generations at a reciprocal-rounding-critical size")
     if mon.gens and O.is_pow2(mon.gens[-1].N) != O.is_pow2(ploidy * n):
         ctx.hook("transitions between ploidy*n a power of two and not a power of two")
-    return mon.observe(t, op, opsite, mat, ploidy, limits, afreqs, gsc, gun, offset, icls=icls), gref
+    return mon.observe(t, op, opsite, mat, ploidy, limits, afreqs, gsc, gun, offset, icls=icls, gdev=gdev), gref
 
 
 SUBSET_ICLS = "parents named in xconfig are a proper subset of the matrix mated from"
@@ -315,19 +332,22 @@ def case_history(ctx, c, family="hist"):
     ploidy = int(g.choice([1, 2, 4, 4, 1, 3])) if chain else 2
     fcls = ["random", "random", "skewed", "skewed", "skewed", "inbred", "inbred", "singletons", "singletons", "complementary", "fixed"][int(g.integers(11))]
     if chain:
-        n0 = int(g.choice([200, 197, 196, 187, 161, 120, 110, 64, 30])); m = int(g.integers(1, 25))
+        n0 = int(g.choice([200, 197, 196, 187, 161, 120, 110, 64, 30, 200, 161, 4097, 5000])); m = int(g.integers(1, 25))
     else:
         n0 = int(g.integers(2, 31)) if g.random() < 0.8 else int(g.choice([1, 2, 40, 49, 33]))
         m = int(g.integers(3, 41)) if g.random() < 0.85 else int(g.integers(1, 4))
     ntrait = int(g.integers(1, 4))
     u, ucls = gen_effects(g, m, ntrait)
     mat0 = gen_founder_mat(g, n0, m, ploidy, fcls)
-    pg = make_pop(g, mat0, int(g.integers(1, 4)))
+    ungrouped = g.random() < 0.3
+    pg = make_pop(g, mat0, int(g.integers(2, 5)) if ungrouped else int(g.integers(1, 4)), ungrouped=ungrouped)
+    if ungrouped:
+        ctx.hook("histories on founders never grouped along the variant axis (interleaved chromosomes)")
     model, beta, has_unscale = make_model(g, u, ntrait)
     genotyper = DenseUnphasedGenotyping()
     ngen = int(g.integers(3, 26)) if g.random() < 0.3 else int(g.integers(3, 11))
     tail = (not chain) and g.random() < 0.35
-    history = [{"op": "founders", "class": fcls, "ntaxa": n0, "nvrnt": m, "ploidy": ploidy}]
+    history = [{"op": "founders", "class": fcls, "ntaxa": n0, "nvrnt": m, "ploidy": ploidy, "variant_axis": "ungrouped, interleaved" if ungrouped else "grouped"}]
     icls = ("selection-only chain, ploidy %d" % ploidy) if chain else "mating history"
     mon = O.HistoryMonitor(ctx, u, icls, coords, history, model)
     protos = {}
@@ -336,6 +356,8 @@ def case_history(ctx, c, family="hist"):
     plan = []
     for _ in range(ngen):
         plan.append("subset" if chain else ["mate", "mate", "mate", "mate", "subset", "subset", "merge"][int(g.integers(7))])
+    if (not chain) and g.random() < 0.03:    # one very large generation (block-wise code paths, > 4096 rows)
+        plan.insert(int(g.integers(0, len(plan) + 1)), "big")
     if tail:
         plan += ["tail-dh", "tail-self", "tail-cross", "tail-subset", "tail-self"][: int(g.integers(2, 6))]
     nfixed_run = 0
@@ -364,6 +386,8 @@ def case_history(ctx, c, family="hist"):
                 pc = numpy.asarray(prog.mat).astype(numpy.int64).sum((0, 1))   # which step brought an allele back, if any?
                 inprog = bool(numpy.any(mon.lost0 & (pc != 0)) or numpy.any(mon.lost1 & (pc != prog.ntaxa * 2)))
                 site = site1 if inprog else O.defining_class(pg, "concat_taxa") + ".concat_taxa"
+            elif kind == "big":
+                new, op, site = do_mate(ctx, g, protos, pg, gref, int(g.choice([4097, 5000, 4500, 8200])), force=PROTOS[int(g.integers(0, 3))])
             elif kind == "tail-dh":   # one doubled haploid: a population fixed at every locus
                 new, op, site = do_mate(ctx, g, protos, pg, gref, 1, force=("TwoWayDHCross", 2))
             elif kind == "tail-self":
